@@ -18,14 +18,14 @@ LEVEL = 'exploration'
 RULE = ('full product mesh size n1d x box L x k-edge family {linear n1d bins, one bin, integer multiples of the fundamental '
         '(every shell on an edge), half-integer multiples (no shell on an edge), logarithmic} x first edge {0, 1.3 fundamental} x '
         'last edge {0.5, 1, sqrt2, sqrt3(+1 fundamental)} k_Ny (duplicate edge arrays dropped) x {mu bins | Npi x pimax} (quick: bin_kppi with L=1000 only for Npi=3); every case is '
-        'run compiled for every multipole set x thread count, through calc_pk_from_deltak, and interpreted (py_func) under 4 virtual '
+        'run compiled for every multipole set x thread count, through calc_pk_from_deltak, and interpreted (kernel source under vf/twin.py) under 4 virtual '
         'thread schedules; every run is compared with the full-mesh reference (exact integer counts up to near-edge feasibility, '
         'N*power, N*k_avg, (2l+1)-Legendre sums); non-trivial = distinct (function, n1d, L, edges, mu/pi binning) whose reference has '
         '>= 2 populated bins')
 ASSUMPTIONS = ['|k| = 0 mode has mu = 0 (nbodykit convention, documented in the kernel)',
                'mu edges span [0, 1]; mu = 1 belongs to the last mu bin; pi edges are linspace(0, pimax, Npi+1)',
                'a mode whose squared quantity is within 2 (k^2, k_perp^2, k_par^2) or 4 (mu^2) float32 ulp of a squared edge may be '
-               'counted on either side, consistently for all modes with the same integers',
+               'counted on either side, consistently for all modes with the same integers; this includes the k = 0 (k_perp = 0) mode when the first k edge is exactly 0',
                'float32 accumulation: |sum error| <= (N+32) eps32 sum|terms| (+ Legendre evaluation error 4 l^2 eps32 per term)',
                'values of empty bins are not constrained', 'mu = |kz|/|k| also for odd multipoles',
                'mesh values: distinct positive irrational weights, not Hermitian-symmetrised (each stored value is its own)']
@@ -145,7 +145,7 @@ def selfcheck():
         mue = np.linspace(0, 1, 3)
         W = weights(n, True)
         ref = c08_ref.Binning(n, dk, 'kmu', ke, mue, W)
-        assert ref.n_ambiguous == 0 or n == 5, ref.n_ambiguous
+        assert ref.n_ambiguous <= 1 or n == 5, ref.n_ambiguous      # only the k = 0 mode, which sits on the first edge (0)
         f = np.fft.fftfreq(n, 1.0 / n) * dk
         kx, ky, kz = np.meshgrid(f, f, f, indexing='ij')
         k = np.sqrt(kx ** 2 + ky ** 2 + kz ** 2)
@@ -199,10 +199,53 @@ _K = {}
 def worker_init():
     import numba  # noqa
     from abacusnbody.analysis import power_spectrum as ps
-    from vf import c08_twin
     _K['ps'] = ps
-    _K['twin_kmu'] = c08_twin.make_twin(ps.bin_kmu)
-    _K['twin_kppi'] = c08_twin.make_twin(ps.bin_kppi)
+
+
+def get_twin(name):
+    """the interpreted twin of ps.<name>, or a str: why the twin driver cannot be built for the present code (then the
+    interpreted sub-runs are skipped and counted; the compiled runs still decide the property)"""
+    key = 'twin_' + name
+    if key not in _K:
+        from vf import c08_twin, core
+        try:
+            _K[key] = c08_twin.Twin(_K['ps'], name)
+        except Exception as e:
+            st = core.stale_reason(e)
+            if not st:
+                raise
+            _K[key] = st
+    return _K[key]
+
+
+def run_twin(ctx, fn, args, kw, nt, sched, how):
+    """one interpreted run -> outputs or None (problem recorded / driver stale)"""
+    from vf import core
+    tw = get_twin('bin_' + fn)
+    if isinstance(tw, str):
+        ctx.extra['twin_runs_skipped_driver_stale'] += 1
+        return None
+    try:
+        with np.errstate(all='ignore'):
+            out = tw(*args, nthread=nt, sched=sched, **kw)
+    except IndexError as e:
+        arr, where = tw.oob_site(e)
+        ctx.bad(f'{fn}:oob:{arr}', f'read/write past the end of an array: {e}; at {where}', how)
+        return None
+    except Exception as e:
+        st = core.stale_reason(e)
+        if not st:
+            raise
+        _K['twin_bin_' + fn] = st
+        ctx.extra['twin_runs_skipped_driver_stale'] += 1
+        return None
+    finally:
+        ctx.extra['twin_evals'] += 1
+        ctx.extra['twin_accumulator_accesses'] += tw.naccess
+    if tw.conflicts:
+        ctx.bad(f'{fn}:shared-accumulator', 'two prange iterations on different virtual threads touch the same array element, at least one writing: '
+                + tw.describe_conflicts(), how)
+    return tuple(np.asarray(o) for o in out)
 
 
 class Ctx:
@@ -210,7 +253,7 @@ class Ctx:
         self.case, self.ke, self.eB = case, ke, eB
         self.probs = {}
         self.extra = dict(modes_binned=0, bins_compared=0, compiled_evals=0, twin_evals=0, pk_evals=0, feasibility_branches=0,
-                          twin_accumulator_accesses=0, runs_with_near_edge_choice=0,
+                          twin_accumulator_accesses=0, runs_with_near_edge_choice=0, twin_runs_skipped_driver_stale=0,
                           edge_shells_put_above=0, edge_shells_put_below=0)
         self.maxleaves = 0
         self.diag = {}
@@ -399,14 +442,21 @@ def run_bigcount(case):
     W = np.ones((n, n, n // 2 + 1), dtype=np.float32)
     probs = []
     ev = 0
+    first = None
     for nt in (1, 3, 16):
         out = ps.bin_kmu(n, L, ke, mu_edges, W, poles=np.array([0], dtype=np.int64), nthread=nt)
         ev += 1
         counts = np.asarray(out[1])
-        if counts.dtype.kind not in 'iu' or not np.array_equal(counts, exp):
-            probs.append(dict(sig='kmu:count:large-mesh', msg=f'n1d={n} nthread={nt}: N_mode {counts.tolist()} (dtype {counts.dtype}) but the mesh holds exactly {exp.tolist()} modes in these bins'))
-        if not np.array_equal(np.asarray(out[3]), exp.sum(axis=1)):
-            probs.append(dict(sig='kmu:counts_poles:large-mesh', msg=f'n1d={n} nthread={nt}: N_mode_poles {np.asarray(out[3]).tolist()} expected {exp.sum(axis=1).tolist()}'))
+        # the |k| = 0 mode sits exactly ON the first edge (kedges[0] == 0): like every on-edge mode it may fall either side
+        admissible = [exp, exp - np.array([[1], [0]])]
+        if counts.dtype.kind not in 'iu' or not any(np.array_equal(counts, a) for a in admissible):
+            probs.append(dict(sig='kmu:count:large-mesh', msg=f'n1d={n} nthread={nt}: N_mode {counts.tolist()} (dtype {counts.dtype}) but the mesh holds exactly {exp.tolist()} modes in these bins (first bin: one less if the k=0 mode on the first edge is excluded)'))
+        if first is None:
+            first = counts.copy()
+        elif not np.array_equal(first, counts):
+            probs.append(dict(sig='kmu:counts-depend-on-threads:large-mesh', msg=f'n1d={n} nthread={nt}: N_mode {counts.tolist()} differs from the nthread=1 run {first.tolist()}'))
+        if not any(np.array_equal(np.asarray(out[3]), a.sum(axis=1)) for a in admissible) or not np.array_equal(np.asarray(out[3]), counts.sum(axis=1)):
+            probs.append(dict(sig='kmu:counts_poles:large-mesh', msg=f'n1d={n} nthread={nt}: N_mode_poles {np.asarray(out[3]).tolist()} expected {exp.sum(axis=1).tolist()} (= sum over mu of N_mode)'))
     return dict(problems=probs[:2], evals=ev, nt=[('bigcount', n, int(exp.max()))], extra=dict(bigcount_modes=int(exp.sum())),
                 max=dict(largest_bin_count=int(exp.max())))
 
@@ -472,49 +522,27 @@ def run(case):
                 out = (rs(r['power']).astype(np.float64) / L ** 3, rs(r['N_mode']), np.asarray(r['binned_poles'], dtype=np.float64) / L ** 3,
                        r['N_mode_poles'], rs(r['k_avg']))
                 check_output(ctx, ref, ref_args, out, poles, how, eps, slack=16)
-        twin, st = _K['twin_kmu']
         for si, sched in enumerate(c08_twin.SCHEDULES):
             nt = NT[(si + n) % len(NT)]
             poles = [0, 2, 4]
-            how = f'interpreted bin_kmu.py_func poles={poles} virtual nthread={nt} schedule={sched}'
-            try:
-                with np.errstate(all='ignore'):
-                    out = twin(n, L, ke, eB, W, np.array(poles), nthread=nt, sched=sched, **kw)
-            except IndexError as e:
-                arr, where = c08_twin.oob_site(e)
-                ctx.bad(f'kmu:oob:{arr}', f'read/write past the end of an array: {e}; at {where}', how)
-                continue
-            finally:
-                evals += 1
-                ctx.extra['twin_evals'] += 1
-                ctx.extra['twin_accumulator_accesses'] += st.touched
-            if st.races:
-                ctx.bad('kmu:shared-accumulator', 'a per-thread accumulator row was touched by another thread: ' + '; '.join(st.races), how)
-            check_output(ctx, ref, ref_args, tuple(np.asarray(o) for o in out), poles, how, eps)
+            how = f'interpreted bin_kmu poles={poles} virtual nthread={nt} schedule={sched}'
+            out = run_twin(ctx, 'kmu', (n, L, ke, eB, W, np.array(poles)), kw, nt, sched, how)
+            evals += 1
+            if out is not None:
+                check_output(ctx, ref, ref_args, out, poles, how, eps)
     else:
         for nt in NT:
             out = ps.bin_kppi(n, L, ke, float(eB[-1]), case['npi'], W, nthread=nt, **kw)
             evals += 1
             ctx.extra['compiled_evals'] += 1
             check_output(ctx, ref, ref_args, out, [], f'compiled bin_kppi nthread={nt}', eps)
-        twin, st = _K['twin_kppi']
         for si, sched in enumerate(c08_twin.SCHEDULES):
             nt = NT[(si + n) % len(NT)]
-            how = f'interpreted bin_kppi.py_func virtual nthread={nt} schedule={sched}'
-            try:
-                with np.errstate(all='ignore'):
-                    out = twin(n, L, ke, float(eB[-1]), case['npi'], W, nthread=nt, sched=sched, **kw)
-            except IndexError as e:
-                arr, where = c08_twin.oob_site(e)
-                ctx.bad(f'kppi:oob:{arr}', f'read/write past the end of an array: {e}; at {where}', how)
-                continue
-            finally:
-                evals += 1
-                ctx.extra['twin_evals'] += 1
-                ctx.extra['twin_accumulator_accesses'] += st.touched
-            if st.races:
-                ctx.bad('kppi:shared-accumulator', 'a per-thread accumulator row was touched by another thread: ' + '; '.join(st.races), how)
-            check_output(ctx, ref, ref_args, tuple(np.asarray(o) for o in out), [], how, eps)
+            how = f'interpreted bin_kppi virtual nthread={nt} schedule={sched}'
+            out = run_twin(ctx, 'kppi', (n, L, ke, float(eB[-1]), case['npi'], W), kw, nt, sched, how)
+            evals += 1
+            if out is not None:
+                check_output(ctx, ref, ref_args, out, [], how, eps)
 
     if not (np.array_equal(frozen[0], W) and np.array_equal(frozen[1], ke) and np.array_equal(frozen[2], eB)):
         ctx.bad(f'{fn}:input-modified', 'an input array (weights / edges) was modified by the call', 'any')
